@@ -5,6 +5,7 @@ import MlodaVerif.Lemmas.OptionsIdent
 import MlodaVerif.Lemmas.OptionsGroup
 import MlodaVerif.Lemmas.OptionsLevels
 import MlodaVerif.Model.OptSpec
+import MlodaVerif.Lemmas.OptionsEquiv
 /-! # C15 — group options split computations, context never does; identities are consistent
 
 Models: `Model/PyVal.lean` (Python values, `==`, `_make_hashable`), `Model/Options.lean` (`Options`, validators,
@@ -274,55 +275,96 @@ example : ((Options.mk [("g", .int 9)] [] []).mergeOptions (Options.mk [("g", .i
 example : ((Options.mk [("g", .int 9), ("feature_chainer_parser_key", .frozenset [.str "g"])] [] []).mergeOptions
     (Options.mk [("g", .int 1)] [] [])).1.group.get? "g" = some (.int 9) := by rfl
 
-/-! ## 5. grouping of a feature group's features, keyed by the hash value -/
+/-! ## 5. grouping of a feature group's features — keyed by the key VALUE (`==`), since commit dc1e740 -/
 
 section grouping
-open OptGroup
-variable {K : Type} [DecidableEq K]
-
-theorem C15.base_key_of_agree (H : PyVal → K) (hH : C15.Respects H) (f g : FeatureId)
-    (hf : wf (.dict f.options.group) = true) (hg : wf (.dict g.options.group) = true) (h : C15.AgreeBase f g) :
-    H f.baseVal = H g.baseVal := by
-  apply hH
-  have e := options_coherent f.options g.options hf hg h.1
-  simp [FeatureId.baseVal, pyEq, PyVal.eqList, e, h.2]
+open OptGroup OptEquiv
 
 /-- context never enters a grouping key: replacing the context (and the propagate set) of a feature changes neither
-`has_similarity_properties()` nor `base_similarity_properties()` — for every hash function -/
-theorem C15.context_never_enters_keys (H : PyVal → K) (f : FeatureId) (c : PyDict) (p : List String) :
-    C15.simKey H { f with options := { f.options with context := c, propagate := p } } = C15.simKey H f ∧
-    C15.baseKey H { f with options := { f.options with context := c, propagate := p } } = C15.baseKey H f := by
+`similarity_key()` / `base_similarity_key()` nor their hashes -/
+theorem C15.context_never_enters_keys (f : FeatureId) (c : PyDict) (p : List String) :
+    let f' : FeatureId := { f with options := { f.options with context := c, propagate := p } }
+    f'.simKey = f.simKey ∧ f'.baseKey = f.baseKey ∧ f'.simVal = f.simVal ∧ f'.baseVal = f.baseVal :=
+  ⟨rfl, rfl, rfl, rfl⟩
+
+/-- `==` keys hash equal, for every admissible hash function — what makes "dict lookup = first stored key that is `==`"
+the right reading of the hash table keyed by `similarity_key()` -/
+theorem C15.similarity_key_eq_hash_coherent {K : Type} (H : PyVal → K) (hH : C15.Respects H) (f g : FeatureId)
+    (hf : wf (.dict f.options.group) = true) (hg : wf (.dict g.options.group) = true) :
+    (pyEq f.baseKey g.baseKey = true → C15.baseHash H f = C15.baseHash H g) ∧
+    (pyEq f.simKey g.simKey = true → C15.simHash H f = C15.simHash H g) := by
   constructor
-  · unfold C15.simKey FeatureId.simVal FeatureId.baseVal; rfl
-  · rfl
+  · intro h
+    apply hH
+    simp only [FeatureId.baseKey, pyEq_tuple2, Bool.and_eq_true] at h
+    have e := OptHash.mh_pyEq _ _ hf hg h.1
+    simp only [FeatureId.baseVal, Options.hashVal, pyEq_tuple2, e, h.2, Bool.and_self]
+  · intro h
+    apply hH
+    unfold FeatureId.simKey FeatureId.simVal at *
+    cases hfd : f.dtype <;> cases hgd : g.dtype <;> simp only [hfd, hgd] at h ⊢
+    · simp only [FeatureId.baseKey, pyEq_tuple2, Bool.and_eq_true] at h
+      have e := OptHash.mh_pyEq _ _ hf hg h.1
+      simp only [FeatureId.baseVal, Options.hashVal, pyEq_tuple2, e, h.2, Bool.and_self]
+    · simp [FeatureId.baseKey, pyEq_tuple23] at h
+    · simp [FeatureId.baseKey, pyEq_tuple32] at h
+    · simp only [pyEq_tuple3, Bool.and_eq_true] at h
+      have e := OptHash.mh_pyEq _ _ hf hg h.1.1
+      simp only [Options.hashVal, pyEq_tuple3, e, h.1.2, h.2, Bool.and_self]
 
-/-- every feature is placed in exactly one group, once (no hypothesis on the hash) -/
-theorem C15.grouping_is_partition (H : PyVal → K) (pick : List FeatureId → Option FeatureId) (fs : List FeatureId) :
-    (members (groupBy C15.isTyped (C15.simKey H) (C15.baseKey H) pick fs)).Perm fs :=
-  groupBy_members_perm _ _ _ _ fs
+/-- every feature is placed in exactly one group, once -/
+theorem C15.grouping_is_partition (pick : List FeatureId → Option FeatureId) (fs : List FeatureId) :
+    (OptGroupEq.members (C15.grouping pick fs)).Perm fs :=
+  OptGroupQ.groupBy_members_perm _ _ _ _ fs
 
-/- Full statement (FALSE of the code as it is, witnesses below):
-     ∀ H, Respects H → ∀ fs f g, SameGroup (groupBy …) f g ↔ AgreeBase f g ∧ Compat f g
-   The dictionary is keyed by the hash VALUE, so unequal option sets with equal hashes share a group. -/
-/-- **two features share a group exactly when group options and framework agree and the declared types are compatible**
-— for every hash function that separates the option sets present, every `next(iter(group))` choice, every iteration
-order of the feature set -/
-theorem C15.grouping_iff_partial (H : PyVal → K) (hH : C15.Respects H)
-    (pick : List FeatureId → Option FeatureId) (hpick : PickOk pick) (fs : List FeatureId)
-    (hwf : ∀ f ∈ fs, wf (.dict f.options.group) = true)
-    (hinj : C15.HashInj H fs) (huniq : C15.UniqueTypedPerBase fs) :
-    ∀ f ∈ fs, ∀ g ∈ fs,
-      SameGroup (groupBy C15.isTyped (C15.simKey H) (C15.baseKey H) pick fs) f g ↔ (C15.AgreeBase f g ∧ C15.Compat f g) := by
-  have hnc : NoColl C15.isTyped (C15.simKey H) (C15.baseKey H) fs := by
+theorem C15.base_key_eq_iff_agree (f g : FeatureId) : pyEq f.baseKey g.baseKey = true ↔ C15.AgreeBase f g := by
+  simp only [FeatureId.baseKey, C15.AgreeBase, Options.eq, pyEq_tuple2, Bool.and_eq_true]
+
+/-- **two features share a group exactly when group options `==`, framework `==` and the declared types are
+compatible** — unconditionally in the hash (collisions are harmless now), for every `next(iter(group))` choice and every
+iteration order of the feature set; the only hypothesis beyond "values a Python program can build" is that the
+agreeing typed features carry one declared type (otherwise "an undeclared type agrees with any" is not transitive) -/
+theorem C15.grouping_iff (pick : List FeatureId → Option FeatureId) (hpick : OptGroupEq.PickOk pick)
+    (fs : List FeatureId) (hwf : ∀ f ∈ fs, wf f.baseKey = true) (huniq : C15.UniqueTypedPerBase fs) :
+    ∀ f ∈ fs, ∀ g ∈ fs, SameGroup (C15.grouping pick fs) f g ↔ (C15.AgreeBase f g ∧ C15.Compat f g) := by
+  haveI : DecidableEq PyVal := fun a b => Classical.propDecidable (a = b)
+  have hwfs : ∀ f ∈ fs, wf f.simKey = true := by
+    intro f hf
+    have := hwf f hf
+    unfold FeatureId.simKey
+    cases f.dtype with
+    | none => exact this
+    | some t =>
+      simp only [FeatureId.baseKey, wf, PyVal.wfL, Bool.and_eq_true] at this ⊢
+      refine ⟨this.1, this.2.1, ?_⟩
+      simp
+  let S : List PyVal := fs.map FeatureId.simKey ++ fs.map FeatureId.baseKey
+  have hS : ∀ k ∈ S, wf k = true := by
+    intro k hk
+    rcases List.mem_append.mp hk with h | h
+    · obtain ⟨f, hf, rfl⟩ := List.mem_map.mp h; exact hwfs f hf
+    · obtain ⟨f, hf, rfl⟩ := List.mem_map.mp h; exact hwf f hf
+  have hequiv : OptGroupQ.EquivOn pyEq S :=
+    ⟨fun a ha => pyEq_refl a (hS a ha), fun a ha b hb h => pyEq_symm (hS a ha) (hS b hb) h,
+     fun a ha b hb c hc h1 h2 => pyEq_trans (hS a ha) (hS b hb) (hS c hc) h1 h2⟩
+  have hshape : OptGroupQ.KeyShape (keq := pyEq) C15.isTyped FeatureId.simKey FeatureId.baseKey fs := by
     refine ⟨?_, ?_, ?_⟩
-    · intro f hf g hg tf tg hs
-      exact C15.base_key_of_agree H hH f g (hwf f hf) (hwf g hg) (hinj.sim f hf g hg tf tg hs).1
-    · intro f hf g hg tf tg hb
-      have ha := hinj.base f hf g hg hb
-      have ht := huniq f hf g hg tf tg ha
-      apply hH
-      have e := options_coherent f.options g.options (hwf f hf) (hwf g hg) ha.1
+    · intro f _ g _ tf tg h
       unfold C15.isTyped at tf tg
+      unfold FeatureId.simKey at h
+      cases hfd : f.dtype with
+      | none => rw [hfd] at tf; cases tf
+      | some a =>
+        cases hgd : g.dtype with
+        | none => rw [hgd] at tg; cases tg
+        | some b =>
+          simp only [hfd, hgd, pyEq_tuple3, Bool.and_eq_true] at h
+          simp only [FeatureId.baseKey, pyEq_tuple2, h.1.1, h.1.2, Bool.and_self]
+    · intro f hf g hg tf tg h
+      have ha := (C15.base_key_eq_iff_agree f g).mp h
+      have ht := huniq f hf g hg tf tg ha
+      unfold C15.isTyped at tf tg
+      unfold FeatureId.simKey
       cases hfd : f.dtype with
       | none => rw [hfd] at tf; cases tf
       | some a =>
@@ -330,14 +372,23 @@ theorem C15.grouping_iff_partial (H : PyVal → K) (hH : C15.Respects H)
         | none => rw [hgd] at tg; cases tg
         | some b =>
           rw [hfd, hgd] at ht; cases ht
-          simp [FeatureId.simVal, hfd, hgd, pyEq, PyVal.eqList, e, ha.2]
-    · intro f hf g hg tf tg hs
-      exact absurd hs (hinj.cross f hf g hg tf tg)
+          simp only [FeatureId.baseKey, pyEq_tuple2, Bool.and_eq_true] at h
+          simp only [pyEq_tuple3, h.1, h.2, pyEq_obj_refl, Bool.and_self]
+    · intro f _ g _ tf tg
+      unfold C15.isTyped at tf tg
+      unfold FeatureId.simKey
+      cases hfd : f.dtype with
+      | none => rw [hfd] at tf; cases tf
+      | some a => simp only [FeatureId.baseKey, pyEq_tuple32]
   intro f hf g hg
-  rw [groupBy_same_iff C15.isTyped (C15.simKey H) (C15.baseKey H) pick hnc hpick f hf g hg]
+  have key := OptGroupQ.groupBy_same_iff (keq := pyEq) (S := S) hequiv C15.isTyped FeatureId.simKey FeatureId.baseKey pick
+    (fun x hx => List.mem_append.mpr (Or.inl (List.mem_map.mpr ⟨x, hx, rfl⟩)))
+    (fun x hx => List.mem_append.mpr (Or.inr (List.mem_map.mpr ⟨x, hx, rfl⟩)))
+    hpick hshape f hf g hg
+  unfold C15.grouping
+  rw [key, C15.base_key_eq_iff_agree]
   constructor
-  · intro hb
-    have ha := hinj.base f hf g hg hb
+  · intro ha
     refine ⟨ha, ?_⟩
     unfold C15.Compat
     cases hfd : f.dtype with
@@ -348,101 +399,84 @@ theorem C15.grouping_iff_partial (H : PyVal → K) (hH : C15.Respects H)
       | some b =>
         have := huniq f hf g hg (by simp [C15.isTyped, hfd]) (by simp [C15.isTyped, hgd]) ha
         rw [hfd, hgd] at this; cases this; rfl
-  · intro ⟨ha, _⟩
-    exact C15.base_key_of_agree H hH f g (hwf f hf) (hwf g hg) ha
+  · exact fun h => h.1
 
-/-- **context never splits**: under the hypotheses of `grouping_iff_partial`, two features that differ only in their
-context options (and anything else `AgreeBase`/`Compat` do not read) are in one group -/
-theorem C15.context_never_splits (H : PyVal → K) (hH : C15.Respects H)
-    (pick : List FeatureId → Option FeatureId) (hpick : PickOk pick) (fs : List FeatureId)
-    (hwf : ∀ f ∈ fs, wf (.dict f.options.group) = true)
-    (hinj : C15.HashInj H fs) (huniq : C15.UniqueTypedPerBase fs)
+/-- **context never splits**: two features that differ only in their context options (same group dictionary, framework
+and declared type) are in one group -/
+theorem C15.context_never_splits (pick : List FeatureId → Option FeatureId) (hpick : OptGroupEq.PickOk pick)
+    (fs : List FeatureId) (hwf : ∀ f ∈ fs, wf f.baseKey = true) (huniq : C15.UniqueTypedPerBase fs)
     (f g : FeatureId) (hf : f ∈ fs) (hg : g ∈ fs)
-    (hgroup : f.options.group = g.options.group) (hcfw : f.cfw = g.cfw) (hdt : f.dtype = g.dtype)
-    (hrefl : f.options.eq f.options = true ∧ pyEq (cfwVal f.cfw) (cfwVal f.cfw) = true) :
-    SameGroup (groupBy C15.isTyped (C15.simKey H) (C15.baseKey H) pick fs) f g := by
-  apply (C15.grouping_iff_partial H hH pick hpick fs hwf hinj huniq f hf g hg).mpr
+    (hgroup : f.options.group = g.options.group) (hcfw : f.cfw = g.cfw) (hdt : f.dtype = g.dtype) :
+    SameGroup (C15.grouping pick fs) f g := by
+  apply (C15.grouping_iff pick hpick fs hwf huniq f hf g hg).mpr
+  have hr := pyEq_refl _ (hwf f hf)
   refine ⟨?_, ?_⟩
-  · unfold C15.AgreeBase
-    unfold Options.eq at hrefl ⊢
-    rw [← hgroup, ← hcfw]; exact hrefl
+  · rw [← C15.base_key_eq_iff_agree]
+    have : g.baseKey = f.baseKey := by unfold FeatureId.baseKey; rw [hgroup, hcfw]
+    rw [this]; exact hr
   · unfold C15.Compat; rw [← hdt]; cases f.dtype <;> simp
 
-/-- **context never splits, unconditionally for declared types**: for EVERY hash function (collisions allowed), every
-`next(iter(group))` choice and every iteration order, two features with the same declared type whose group options are
-`==` and whose frameworks are `==` — whatever their context options — are in one group -/
-theorem C15.context_never_splits_typed (H : PyVal → K) (hH : C15.Respects H)
-    (pick : List FeatureId → Option FeatureId) (fs : List FeatureId) (f g : FeatureId) (hf : f ∈ fs) (hg : g ∈ fs)
-    (hwf : wf (.dict f.options.group) = true) (hwg : wf (.dict g.options.group) = true)
-    (t : Nat) (tf : f.dtype = some t) (tg : g.dtype = some t) (ha : C15.AgreeBase f g) :
-    SameGroup (groupBy C15.isTyped (C15.simKey H) (C15.baseKey H) pick fs) f g := by
-  apply groupBy_typed_same_key C15.isTyped (C15.simKey H) (C15.baseKey H) pick fs f g hf hg
-    (by simp [C15.isTyped, tf]) (by simp [C15.isTyped, tg])
-  apply hH
-  have e := options_coherent f.options g.options hwf hwg ha.1
-  simp [FeatureId.simVal, tf, tg, pyEq, PyVal.eqList, e, ha.2]
+/-! ### hash collisions: still facts about hashing, no longer about grouping -/
 
-/-- two undeclared-type features with equal base keys always end in one group, whatever `pick` does -/
-theorem C15.two_untyped_equal_key_share (sim base : FeatureId → K) (pick : List FeatureId → Option FeatureId)
-    (a b : FeatureId) (ha : C15.isTyped a = false) (hb : C15.isTyped b = false) (hk : base a = base b) :
-    SameGroup (groupBy C15.isTyped sim base pick [a, b]) a b := by
-  unfold groupBy
-  simp only [List.filter, ha, hb, Bool.not_false, pass1, List.foldl_nil, pass2, List.foldl_cons, place, findGroup, addTo]
-  cases hp : pick [a] with
-  | none =>
-    simp only [findGroup, addTo, hk, if_true]
-    exact ⟨_, List.mem_singleton.mpr rfl, by simp, by simp⟩
-  | some x =>
-    by_cases hx : base x = base b
-    · simp only [if_pos hx, addTo, hk, if_true]
-      exact ⟨_, List.mem_singleton.mpr rfl, by simp, by simp⟩
-    · simp only [if_neg hx, findGroup, addTo, hk, if_true]
-      exact ⟨_, List.mem_singleton.mpr rfl, by simp, by simp⟩
-
-/-- **collision witness 1** (`hash(-1) == hash(-2)` in CPython): for every hash function with that collision whose
-tuple hash is a function of the element hashes, `Feature('a', {'x': -1})` and `Feature('b', {'x': -2})` — group options
-that are NOT equal — are put into one group -/
-theorem C15.grouping_hash_collision_witness (H : PyVal → K) (hT : C15.TupleCong H)
-    (hcol : H (.int (-1)) = H (.int (-2))) (pick : List FeatureId → Option FeatureId) :
-    SameGroup (groupBy C15.isTyped (C15.simKey H) (C15.baseKey H) pick [C15.featX (.int (-1)), C15.featX (.int (-2))])
-        (C15.featX (.int (-1))) (C15.featX (.int (-2))) ∧
-    (C15.featX (.int (-1))).options.eq (C15.featX (.int (-2))).options = false := by
-  refine ⟨C15.two_untyped_equal_key_share _ _ pick _ _ rfl rfl ?_, by decide⟩
-  have e1 : (C15.featX (.int (-1))).baseVal = .tuple [.tuple [.tuple [.str "x", .int (-1)]], .none] := by rfl
-  have e2 : (C15.featX (.int (-2))).baseVal = .tuple [.tuple [.tuple [.str "x", .int (-2)]], .none] := by rfl
-  unfold C15.baseKey
-  rw [e1, e2]
+/-- `hash(-1) == hash(-2)` in CPython: for every hash function with that collision whose tuple hash is a function of the
+element hashes, the option sets `{'x': -1}` and `{'x': -2}` are `!=` but hash equal (`Options.__hash__` and both
+similarity hashes) -/
+theorem C15.options_hash_collision_int {K : Type} (H : PyVal → K) (hT : C15.TupleCong H)
+    (hcol : H (.int (-1)) = H (.int (-2))) :
+    (C15.featX (.int (-1))).options.eq (C15.featX (.int (-2))).options = false ∧
+    H (C15.featX (.int (-1))).options.hashVal = H (C15.featX (.int (-2))).options.hashVal ∧
+    C15.baseHash H (C15.featX (.int (-1))) = C15.baseHash H (C15.featX (.int (-2))) := by
+  have e1 : (C15.featX (.int (-1))).options.hashVal = .tuple [.tuple [.str "x", .int (-1)]] := by rfl
+  have e2 : (C15.featX (.int (-2))).options.hashVal = .tuple [.tuple [.str "x", .int (-2)]] := by rfl
+  have hh : H (C15.featX (.int (-1))).options.hashVal = H (C15.featX (.int (-2))).options.hashVal := by
+    rw [e1, e2]
+    apply hT; simp only [List.map_cons, List.map_nil, List.cons.injEq, and_true]
+    apply hT; simp only [List.map_cons, List.map_nil, List.cons.injEq, and_true, true_and]
+    exact hcol
+  refine ⟨by decide, hh, ?_⟩
+  unfold C15.baseHash FeatureId.baseVal
   apply hT; simp only [List.map_cons, List.map_nil, List.cons.injEq, and_true]
-  apply hT; simp only [List.map_cons, List.map_nil, List.cons.injEq, and_true]
-  apply hT; simp only [List.map_cons, List.map_nil, List.cons.injEq, and_true, true_and]
-  exact hcol
+  exact ⟨hh, rfl⟩
 
-/-- the hypotheses of witness 1 are satisfiable by a hash function that is not constant -/
-example : ∃ H : PyVal → Int, C15.TupleCong H ∧ H (.int (-1)) = H (.int (-2)) ∧ H (.int 1) ≠ H (.int 2) :=
-  ⟨fun v => match v with
-      | .int i => if i = -1 then -2 else i
-      | _ => 0,
-   by intro l l' _; rfl, by decide, by decide⟩
+/-- `_make_hashable` maps a list and the equal tuple, a dict and its sorted item tuple to the same value: these option
+sets are `!=` but hash equal under EVERY hash function -/
+theorem C15.options_hash_collision_make_hashable :
+    ((C15.featX (.list [.int 1])).options.eq (C15.featX (.tuple [.int 1])).options = false ∧
+     (C15.featX (.list [.int 1])).options.hashVal = (C15.featX (.tuple [.int 1])).options.hashVal) ∧
+    ((C15.featX (.dict [("q", .int 1)])).options.eq (C15.featX (.tuple [.tuple [.str "q", .int 1]])).options = false ∧
+     (C15.featX (.dict [("q", .int 1)])).options.hashVal = (C15.featX (.tuple [.tuple [.str "q", .int 1]])).options.hashVal) :=
+  ⟨⟨by decide, by rfl⟩, ⟨by decide, by rfl⟩⟩
 
-/-- **collision witness 2** (no assumption on `H` at all): `_make_hashable` maps `{'x': [1]}` and `{'x': (1,)}` to the
-same value, so these unequal group options share a group under every hash function -/
-theorem C15.grouping_mh_collision_witness (H : PyVal → K) (pick : List FeatureId → Option FeatureId) :
-    SameGroup (groupBy C15.isTyped (C15.simKey H) (C15.baseKey H) pick
-        [C15.featX (.list [.int 1]), C15.featX (.tuple [.int 1])])
-        (C15.featX (.list [.int 1])) (C15.featX (.tuple [.int 1])) ∧
-    (C15.featX (.list [.int 1])).options.eq (C15.featX (.tuple [.int 1])).options = false := by
-  refine ⟨C15.two_untyped_equal_key_share _ _ pick _ _ rfl rfl ?_, by decide⟩
-  have e : (C15.featX (.list [.int 1])).baseVal = (C15.featX (.tuple [.int 1])).baseVal := by rfl
-  unfold C15.baseKey; rw [e]
+/-- **the repaired grouping separates the colliding option sets**: `{'x': -1}` / `{'x': -2}`, `[1]` / `(1,)`,
+`{'q': 1}` / `(('q', 1),)` end in different groups, for every choice function -/
+theorem C15.grouping_separates_collisions (pick : List FeatureId → Option FeatureId) (hpick : OptGroupEq.PickOk pick)
+    (a b : PyVal)
+    (hab : (a, b) = (.int (-1), .int (-2)) ∨ (a, b) = (.list [.int 1], .tuple [.int 1]) ∨
+           (a, b) = (.dict [("q", .int 1)], .tuple [.tuple [.str "q", .int 1]])) :
+    ¬ SameGroup (C15.grouping pick [C15.featX a, { C15.featX b with name := "b" }])
+        (C15.featX a) { C15.featX b with name := "b" } := by
+  intro hs
+  have huniq : C15.UniqueTypedPerBase [C15.featX a, { C15.featX b with name := "b" }] := by
+    intro f hf g hg tf _
+    simp only [List.mem_cons, List.mem_singleton, List.not_mem_nil, or_false] at hf
+    rcases hf with rfl | rfl <;> simp [C15.isTyped, C15.featX] at tf
+  have hwf : ∀ f ∈ [C15.featX a, { C15.featX b with name := "b" }], wf f.baseKey = true := by
+    intro f hf
+    simp only [List.mem_cons, List.mem_singleton, List.not_mem_nil, or_false] at hf
+    rcases hab with h | h | h <;> cases h <;> rcases hf with rfl | rfl <;> decide
+  have := (C15.grouping_iff pick hpick _ hwf huniq _ (by simp) _ (by simp)).mp hs
+  have hne : (C15.featX a).options.eq ({ C15.featX b with name := "b" } : FeatureId).options = false := by
+    rcases hab with h | h | h <;> cases h <;> decide
+  rw [this.1.1] at hne; cases hne
 
-/-- non-vacuity of `grouping_iff_partial`'s shape: with an injective key `{'x': 1}` typed/untyped features (contexts
-differ) group together, `{'x': 2}` apart -/
+/-- non-vacuity: `{'x': 1}` typed/untyped features with different contexts group together, `{'x': 2}`, and the colliding
+`{'x': -1}` / `{'x': -2}` apart -/
 example :
-    let key : FeatureId → List (String × Int) := fun f => f.options.group.map (fun kv => (kv.1, match kv.2 with | .int i => i | _ => 0))
-    (groupBy C15.isTyped (fun f => (key f, f.dtype)) (fun f => (key f, none)) List.head?
+    (C15.grouping List.head?
       [{ (C15.featX (.int 1)) with name := "t", dtype := some 3 }, { (C15.featX (.int 2)) with name := "u" },
-       { (C15.featX (.int 1)) with name := "v", options := ⟨[("x", .int 1)], [("c", .int 9)], []⟩ }]).map
-      (fun e => e.2.map (·.name)) = [["t", "v"], ["u"]] := by decide
+       { (C15.featX (.float 2 1)) with name := "v", options := ⟨[("x", .float 2 1)], [("c", .int 9)], []⟩ },
+       { (C15.featX (.int (-1))) with name := "m1" }, { (C15.featX (.int (-2))) with name := "m2" }]).map
+      (fun e => e.2.map (·.name)) = [["t", "v"], ["u"], ["m1"], ["m2"]] := by rfl
 
 end grouping
 
